@@ -10,6 +10,7 @@ CONSTANTS
   Protos = {TRUE, FALSE}
   Faults <- SomeFaults
   Spurious = FALSE
+  AllowDrop = FALSE
   Durs <- Durs013
   MaxT = 6
   RespFaults = TRUE
